@@ -493,6 +493,11 @@ func checkLibraryBounds(w *core.World, r *core.Report, rule string, reach map[*s
 				r.OK(rule, fmt.Sprintf("%s: %s (frame number parameter)", core.QName(fn), s.Kind), s.Instr.Pos(), why)
 				continue
 			}
+			if why, ok := paramLenFromCallers(w, lf, fn, s); ok {
+				nOK++
+				r.OK(rule, fmt.Sprintf("%s: %s (length of a parameter, proved at every call site)", core.QName(fn), s.Kind), s.Instr.Pos(), why)
+				continue
+			}
 			base := fmt.Sprintf("%s: unproved %s", core.QName(fn), s.Kind)
 			perKey[base]++
 			k := base
@@ -990,4 +995,65 @@ func checkFlagSizeRelation(w *core.World, r *core.Report, rule string) {
 	r.Check(bad == "" && n >= 2 && len(lenArgs) > 0, rule, "invariant: State.BitSize and the flag bytes are set together, by the constructor only", badPos,
 		fmt.Sprintf("%d stores, all on a State allocated in the same function; byte count computed from the stored bit count", n),
 		"the relation BitSize <= 8*len(Flags) that the flag accessors' range check relies on can be broken after construction: a signal below BitSize then indexes past the flag bytes (run-time panic on a well-formed CATCH/CROAK/flag operand): "+bad)
+}
+
+// paramLenFromCallers: a constant index or slice bound on a byte-like parameter of an unexported
+// helper all of whose call sites are known; the needed length of the argument is proved at every
+// call site (with the same checked invariants), e.g. a key builder's result handed to a helper
+// that strips its first byte.
+func paramLenFromCallers(w *core.World, lf *libFacts, fn *ssa.Function, s core.BoundsSite) (string, bool) {
+	var x ssa.Value
+	need := int64(-1)
+	switch t := s.Instr.(type) {
+	case *ssa.Slice:
+		x = t.X
+		if t.Low != nil {
+			if k, ok := core.ConstInt(t.Low); ok && k > need {
+				need = k
+			} else if !ok {
+				return "", false
+			}
+		}
+		if t.High != nil {
+			if k, ok := core.ConstInt(t.High); ok && k > need {
+				need = k
+			} else if !ok {
+				return "", false
+			}
+		}
+	case *ssa.IndexAddr:
+		x = t.X
+		if k, ok := core.ConstInt(t.Index); ok {
+			need = k + 1
+		}
+	case *ssa.Index:
+		x = t.X
+		if k, ok := core.ConstInt(t.Index); ok {
+			need = k + 1
+		}
+	}
+	if x == nil || need <= 0 {
+		return "", false
+	}
+	p, ok := core.Strip(x).(*ssa.Parameter)
+	if !ok || !core.ByteLike(p.Type()) {
+		return "", false
+	}
+	sites, escapes := staticCallSites(w, fn)
+	if escapes || len(sites) == 0 {
+		return "", false
+	}
+	pi := paramIndex(p)
+	for _, c := range sites {
+		args := core.CallArgs(c)
+		if pi < 0 || pi >= len(args) {
+			return "", false
+		}
+		bd := core.NewBounds(c.Parent(), intBits(w))
+		lf.install(bd)
+		if !bd.ProveLenGEAt(c.(ssa.Instruction), args[pi], need) {
+			return "", false
+		}
+	}
+	return fmt.Sprintf("len(%s) >= %d proved at all %d call site(s)", p.Name(), need, len(sites)), true
 }
